@@ -498,9 +498,6 @@ func (r *Resolver) resolveOne(ctx context.Context, name, typ string) ([]any, err
 		cache.Remove(key)
 		return nil, err
 	}
-	if len(res) == 0 {
-		ttl = 300
-	}
 	v.expiration = timeNow().Add(time.Second * time.Duration(ttl))
 	v.result = res
 	return res, nil
@@ -531,6 +528,10 @@ func (r *Resolver) resolveOneNoCache(ctx context.Context, name, typ string) ([]a
 	}
 	var res []any
 	var ttl uint32
+	if len(result.Answer) == 0 {
+		// Negative answers carry no TTL here; keep them for 5 minutes.
+		ttl = 300
+	}
 	want := strings.TrimSuffix(name, ".")
 	for i, a := range result.Answer {
 		// The smallest TTL in the answer. Zero is a valid TTL and means
